@@ -16,6 +16,9 @@ pub fn run(ctx: &Ctx) -> Outcome {
     for drv in fsm_batch_all(ctx.tier, ctx.tier.pick(5, 6)) {
         run_and_report(ctx, &drv, &mut out);
     }
+    for la in [false, true] {
+        run_and_report(ctx, &fin_tail_recovery(ctx.tier, la, ctx.tier.pick(6, 8)), &mut out);
+    }
     // FIN emission under loss (found F14): every plan of <= 2 deviations on the core scenarios
     let always = |_: &RunLog, _: &WireEventLite| true;
     let mut scns = lib::core();
